@@ -219,6 +219,15 @@ func findStmt(c *Ctx, fd *ast.FuncDecl, kinds string, needles ...string) string 
 	return out
 }
 
+// negotiateReference: the translations of the negotiation helpers on the tree the proofs were made on.
+var negotiateReference = map[string]string{
+	"negotiatedVersion": "def negotiatedVersion (clientVersion : String) : String :=\n  (if ((supportedProtocolVersions).contains clientVersion && decide (clientVersion < protocolVersion20260728)) then clientVersion else protocolVersion20251125)\n",
+	"negotiateMutuallySupportedVersion": "def negotiateMutuallySupportedVersion (supported : List String) : String :=\n  (match (supportedProtocolVersions).find? (fun ver => (supported).contains ver) with | some ver => ver | none => \"\")\n",
+	"sseSupportsProtocolVersion": "def sseSupportsProtocolVersion (version : String) : Bool :=\n  decide (version < protocolVersion20260728)\n",
+	"streamableSupportsProtocolVersion": "def streamableSupportsProtocolVersion (stateless : Bool) (version : String) : Bool :=\n  (if (!decide (version < protocolVersion20260728)) then (stateless && (supportedProtocolVersions).contains version) else (supportedProtocolVersions).contains version)\n",
+	"legacyVersionFor": "def legacyVersionFor (version : String) (transportVersions : List String) : String :=\n  (if (transportVersions).contains version then version else (match (supportedProtocolVersions).find? (fun v => (decide (v < protocolVersion20260728) && (transportVersions).contains v)) with | some v => v | none => \"\"))\n",
+}
+
 func init() {
 	reg(func(c *Ctx) {
 		var b strings.Builder
@@ -291,7 +300,15 @@ func init() {
 			}
 			s, err := translateFunc(c, fd, lean, force...)
 			if err != nil {
-				c.Errf("negotiate: cannot translate %s.%s: %v", recv, fn, err)
+				// The function left the translatable subset (or changed shape). The obligation fails through
+				// the extraction error; the REFERENCE translation (of the function as it stands in the tree the
+				// proofs were made on) is emitted in its place so that the model and the driver still build and
+				// the harness can exhibit a concrete failing input for the changed function.
+				c.Errf("negotiate: cannot translate %s.%s: %v (the reference translation stands in; the proofs do not cover the function as it now is)", recv, fn, err)
+				if ref, ok := negotiateReference[lean]; ok {
+					b.WriteString("/-- STAND-IN: `" + fn + "` as it now stands cannot be translated; this is the reference translation -/\n" + ref)
+					return true
+				}
 				return false
 			}
 			b.WriteString(s)
@@ -343,6 +360,8 @@ func init() {
 		ini := c.Func("mcp", "ServerSession", "initialize")
 		fsv := c.Func("mcp", "", "filterSupportedVersions")
 		sconn := c.Func("mcp", "Server", "Connect")
+		hwrite := c.Func("mcp", "streamableClientConn", "Write")
+		hcheck := c.Func("mcp", "streamableClientConn", "checkResponse")
 		facts := map[string]string{
 			"client.default_version":     findStmt(c, conn, "assign", "protocolVersion :=", "latestProtocolVersion"),
 			"client.explicit_version":    findStmt(c, conn, "if", "opts.ProtocolVersion"),
@@ -368,5 +387,15 @@ func init() {
 			"server.initialize_filter":   findStmt(c, ini, "assign", "legacyVersionFor(") + " | " + findStmt(c, ini, "if", "version == \"\""),
 		}
 		c.Fact("negotiate.flow", facts)
+		// the streamable CLIENT transport against a peer that answers server/discover with an HTTP error:
+		// every such answer reaches Client.Connect as a per-call rejection (the connection survives and the
+		// initialize fallback runs on it) — the model's `DiscResp.unavailable` class rests on these statements
+		c.Fact("negotiate.httpclient", map[string]string{
+			"write.discover_rejected":  findStmt(c, hwrite, "if", "requestMethod == methodDiscover"),
+			"check.transient":          findStmt(c, hcheck, "if", "isTransientHTTPStatus"),
+			"check.decode_error_body":  findStmt(c, hcheck, "if", "noprotocolerrorbody"),
+			"check.error_body_is_call": findStmt(c, hcheck, "if", "response.Error != nil"),
+			"check.not_found":          findStmt(c, hcheck, "if", "StatusNotFound"),
+		})
 	})
 }
